@@ -916,6 +916,73 @@ func (ex *Executor) finishUnit(st *State, fr *Frame, res []Val, ins ssa.Instruct
 	}
 	st.resultsForRows = res
 	ex.endSegment(st, fr, "exit")
+	ex.checkCallReqs(st, fr, res)
+}
+
+// checkCallReqs: exit require clauses (see CallReq)
+func (ex *Executor) checkCallReqs(st *State, fr *Frame, res []Val) {
+	for _, cr := range fr.spec.CallReqs {
+		env := ex.envFor(st, fr)
+		env.bindResults(fr.fn, res)
+		var matches []*Event
+		for _, e := range st.events {
+			if e.Kind == "call" && nameMatches(e.Fn, cr.Pat.Fn) {
+				matches = append(matches, e)
+			}
+		}
+		cond, err := ex.evalSpec(cr.When, env)
+		if err != nil {
+			ex.errf("%s: exit require %s: %v", ex.unitKey, cr.Name, err)
+			continue
+		}
+		if len(matches) != 1 {
+			ex.addObl(st, "require", cr.Name, Not(cond.T), fmt.Sprintf("%s is called %d times on this path, so the condition of `%s` must not hold here", cr.Pat.Fn, len(matches), cr.Text), cr.Tags)
+			continue
+		}
+		e := matches[0]
+		var cs []*Term
+		bad := false
+		if cr.Pat.Args != nil && len(cr.Pat.Args) == len(e.Args) {
+			for k, a := range cr.Pat.Args {
+				if a.Kind == "ident" && a.Name == "_" {
+					continue
+				}
+				if a.Kind == "ident" && strings.HasPrefix(a.Name, "bind_") {
+					env.vars[strings.TrimPrefix(a.Name, "bind_")] = e.Args[k]
+					continue
+				}
+				c := *env
+				if e.Heap != nil {
+					c.heapOverride = e.Heap
+				}
+				pv, err := ex.evalSpec(a, &c)
+				if err != nil {
+					ex.errf("%s: exit require %s: %v", ex.unitKey, cr.Name, err)
+					bad = true
+					break
+				}
+				cs = append(cs, Eq(ex.asTerm(st, pv), ex.asTerm(st, e.Args[k])))
+			}
+		} else if cr.Pat.Args != nil {
+			ex.errf("%s: exit require %s: arity of %s", ex.unitKey, cr.Name, cr.Pat.Fn)
+			continue
+		}
+		if bad {
+			continue
+		}
+		for k, b := range cr.Pat.Bind {
+			if k < len(e.Res) && b != "_" {
+				env.vars[b] = e.Res[k]
+			}
+		}
+		post, err := ex.evalSpec(cr.Then, env)
+		if err != nil {
+			ex.errf("%s: exit require %s: %v", ex.unitKey, cr.Name, err)
+			continue
+		}
+		cs = append(cs, post.T)
+		ex.addObl(st, "require", cr.Name, Implies(cond.T, And(cs...)), cr.Text, cr.Tags)
+	}
 }
 
 func returnOrdinal(r *ssa.Return) int {
